@@ -153,6 +153,12 @@ const TAGS: &[&str] = &[
     "<text>&#123;&#123;&#123; b }}</text><text>&#123;&#123;{{ a }}</text><text>x&#123;&#123;&#123;&#123;{{ b }}</text><text>&#123;{{ c }}&#123;&#123;&#123;</text>",
     "<view title=\"&#123;&#123;{{ a }}\" data-x=\"&#123;&#123;&#123;\" mark:m=\"q&#123;&#123;{{ b }}&#123;\"/>",
     "<text>{{ '{{{' + a }}{{ '{{' }}{{ b }}</text>",
+    "<text>&#32;</text><view> &#10; </view><text>&#x20;&#9;</text><view>a&#32;b</view>",
+    "<view wx:if=\"{{ a }}\">A</view>&#32;<view wx:else>B</view>",
+    "<text>{{ ' ' }}</text><text>{{ \" \" + '' }}</text><view>{{ '\\n' }}</view>",
+    "<view> {{ }} </view><text>x</text>",
+    "<template name=\"t\"><text>{{ a }}:{{ x }}</text></template><template is=\"t\" data=\"{{ (obj) }}\"/><template is=\"t\" data=\"{{ ((obj)) }}\"/>",
+    "<template name=\"t\"><text>{{ a }}:{{ x }}</text></template><template is=\"t\" data=\"{{ a }}\"/><template is=\"t\" data=\"{{ {a} }}\"/><template is=\"t\" data=\"{{ a: b }}\"/>",
     "<view title=\"line1\nline2\t{{ a }}\">x\ty</view>",
     "<text>é{{ 'ü' + a }}漢字{{ b }}😀{{ '😀' }}</text><view data-é=\"{{ a }}\" title=\"ñ\"/>",
     "<text>{{ _$0 }}:{{ _$1 + a }}</text><view wx:for=\"{{ l2 }}\">{{ _$0 }}{{ item }}</view>",
